@@ -16,7 +16,15 @@ NoTimes(b) == [running |-> b.running,
                   ip |-> [i \in 1..Len(b.steps[s].ip) |-> [b.steps[s].ip[i] EXCEPT !.first = 0]],
                   coll |-> b.steps[s].coll, waiters |-> b.steps[s].waiters]]]
 
-Clause(r) == IF "error" \in DOMAIN r.rebuilt THEN "rebuild_raised"
+(* "Hence ctx.to_dict() and running_steps() taken from a live handler describe the actual run": at every quiescence  *)
+(* point the harness asks the SAME context object again (records `inspect`): the state read back from to_dict() next to *)
+(* the live runner state rendered the same way, and running_steps() next to the steps that have work in progress.       *)
+Clause(r) == IF r.e = "inspect"
+             THEN IF r.err # "" THEN "inspection_raised"
+                  ELSE IF NoTimes(r.said) # NoTimes(r.live) THEN "to_dict_differs_from_the_run"
+                  ELSE IF r.steps_said # r.steps_live THEN "running_steps_differs_from_the_run"
+                  ELSE "ok"
+             ELSE IF "error" \in DOMAIN r.rebuilt THEN "rebuild_raised"
              ELSE IF NoTimes(r.rebuilt) # NoTimes(r.state) THEN "rebuilt_state_differs"
              ELSE "ok"
 
